@@ -99,6 +99,7 @@ def run(ctx):
         raise core.MachineryError("Settings properties accept the endless User-Agent loop (vacuous?)")
     ctx.notes["original_algorithm_rejected_by"] = r0.violation
 
+    views_part(ctx, beacon)
     ioc = f" UALen = 128\n MaxItems = {2 if q else 3}"
     tab = core.tlc_table(ctx, "SettingsIO", ioc, timeout=2400)
 
@@ -312,3 +313,70 @@ def run(ctx):
                          "indices, duplicates, short SHORT/INT values) x 6 endings, expected decoding and views computed by TLC at the real UA length 128; "
                          "events: random TLV streams (any u16 index, lengths to 65535, cuts, garbage tails) and sample config blocks; distinct = blocks")
     ctx.exhaustive = True
+
+
+def views_part(ctx, beacon):
+    """Views.tla: the four cached views under every order of first reads, replayed on the real BeaconConfig"""
+    from vt import tlaval
+
+    cfg = "CONSTANTS\n REKEY = %s\n UALen = 128\nSPECIFICATION Spec\nINVARIANT EveryViewIsTheReference\nCHECK_DEADLOCK FALSE\n"
+    dot = ctx.outdir / "views.dot"
+    r = ctx.tlc("Views", cfg % "FALSE", name="views-model", workers=4, extra=["-dump", "dot,actionlabels", str(dot)])
+    core.require_clean(r, "Views")
+    core.require_coverage(r, ["Read"])
+    r0 = ctx.tlc("Views", cfg % "TRUE", name="views-rekey", workers=2, coverage=False)
+    if r0.ok:
+        raise core.MachineryError("Views.tla accepts a view that is re-keyed from another cached view (vacuous?)")
+    g = tlaval.Graph(dot)
+    dot.unlink()
+    attr = {"raw_name": "raw_settings", "raw_index": "raw_settings_by_index", "pretty_name": "settings", "pretty_index": "settings_by_index"}
+
+    def tlv_of(rec):
+        v = rec["value"][-1]
+        val = struct.pack(">H", v) if rec["type"] == 1 else struct.pack(">I", v) if rec["type"] == 2 else bytes([v, 0])
+        return struct.pack(">HHH", rec["index"], rec["type"], len(val)) + val
+
+    def shown(rec, view):
+        v = rec["value"][-1]
+        if rec["type"] in (1, 2):
+            return v
+        return bytes([v]) if (view.startswith("pretty") and rec["index"] == 36) else bytes([v, 0])
+
+    seen = set()
+    n = 0
+    for st in g.nodes.values():
+        first = tuple(dict.fromkeys(st["order"]))
+        recs = st["recs"]
+        key = (repr(recs), first)
+        if not first or key in seen:
+            continue
+        seen.add(key)
+        block = b"".join(tlv_of(rc) for rc in recs) + b"\x00\x00"
+        by_v = {rc["value"][-1]: rc for rc in recs}
+
+        def go():
+            c = beacon.BeaconConfig(block)
+            got = {}
+            for v in first:
+                got[v] = [(k if isinstance(k, str) else int(k), val if not isinstance(val, int) else int(val)) for k, val in getattr(c, attr[v]).items()]
+            return got
+
+        o = core.guarded(go, seconds=10)
+        ctx.evaluations += 1
+        cache = st["cache"]
+        bad = None
+        if o[0] != "ok":
+            bad = ("exception", str(o)[:200])
+        else:
+            for v in first:
+                want = [(e["key"], shown(by_v[e["val"][1][-1]], v)) for e in cache[v]]
+                if o[1][v] != want:
+                    bad = (v, str(o[1][v])[:200], str(want)[:200])
+                    break
+        if bad:
+            ctx.violation("a cached view differs from Views.tla after this order of reads", {"op": "BeaconConfig", "failed": "view_after_read_order"},
+                          {"records": [(rc["index"], rc["type"], rc["value"][-1]) for rc in recs], "read_order": list(first), "problem": bad})
+        ctx.count_distinct(("views", key))
+        n += 1
+    ctx.traces += n
+    ctx.notes["views"] = {"read_orders_replayed": n}
